@@ -470,8 +470,8 @@ def replay(cand):
 
 
 MANIFEST_ENTRY = {
-    "engine": "symx",
-    "technique": "bounded symbolic execution (symx/z3) of the Python layers of recfile.Util and sfile (row-list normalisation, slice arithmetic, column ordering, scalar handling, access styles, split/reduce) against a contract model of the C++ reader; scalar rows, row-list entries and slice bounds are solver variables concretised only after the code has run, cells are solver variables; the result is compared cell by cell with Python indexing of the full table; counterexamples are replayed on real files written and read by a scratch build",
+    "engine": "symx+castxx",
+    "technique": "bounded symbolic execution (symx/z3) of the Python layers of recfile.Util and sfile (row-list normalisation, slice arithmetic, column ordering, scalar handling, access styles, split/reduce) against a contract model of the C++ reader; scalar rows, row-list entries and slice bounds are solver variables concretised only after the code has run, cells are solver variables; the result is compared cell by cell with Python indexing of the full table; the C++ cursor machines of records.cpp (read_binary_slice, read_columns/read_binary_columns, skip_rows, goto_offset) are interpreted from clang's AST (vf.castxx) over an abstract FILE with symbolic slice bounds / sorted row and column selections: every output row holds the bytes of the requested file row and fields, reads stay inside the table and never move backwards; counterexamples are replayed on real files written and read by a scratch build",
     "text": "For tables of 1..3 rows (binary and text), every scalar row in [-n-1,n], every row list over [0,n+1] (with repeats, list or array), every slice with start/stop in [-n-2,n+2] or None and step None/1/2/3 (whole rows and column subsets), every column selection (scalar/list/tuple/array, columns= or fields=) and the access styles read / [] / chained / subset / sfile.read with split and reduce: the cells returned are exactly those of Python indexing of the full table, a single name yields a plain column, out-of-range row lists are rejected and empty selections are empty tables.",
-    "note": "records.cpp's cursor machines are behind a contract (not decided here); n<=3 (4 thorough); delim in {None, ','}",
+    "note": "the Python layer is decided against the contract of the C++ reader and the binary cursor machines of records.cpp against that contract separately (text-file cursors are not interpreted); n<=3 (4 thorough); delim in {None, ','}",
 }
